@@ -465,3 +465,25 @@ unsafe fn drop_unreachable_with_adoptions<T>(this: &mut Rc<T>) {
         Global.deallocate(this.ptr.cast(), layout);
     }
 }
+
+// Remove all adoption bookkeeping that involves `this`.
+//
+// `this` is purged from the links of every `Rc` it has adopted or has been
+// adopted by, then its own links are cleared. This is the unlinking step of
+// `drop_unreachable_with_adoptions`, for the APIs that give up an allocation
+// without going through `Drop` (`Rc::try_unwrap` and `Rc::make_mut`).
+pub(crate) unsafe fn unlink<T>(this: &Rc<T>) {
+    let forward = Link::forward(this.ptr);
+    let backward = Link::backward(this.ptr);
+    let links = this.inner().links();
+    for (item, &strong) in links.borrow().iter() {
+        // if `this` has adopted itself, the links are cleared below.
+        if ptr::eq(this.inner(), item.as_ptr()) {
+            continue;
+        }
+        let mut links = item.as_ref().links().borrow_mut();
+        links.remove(forward, strong);
+        links.remove(backward, strong);
+    }
+    links.borrow_mut().clear();
+}
